@@ -13,7 +13,8 @@ RULE = ('every kind of generated deck (flat partitions with complements and empt
         'declared counts, no surface on both sides, one composition per non-virtual volume, COMPOSITION count, '
         'finite numbers). Non-trivial = file has at least one UNION/INTE operator; distinct = distinct (deck, options).')
 NOT_PROVED = ['write/parse round trip of the writers (the predicate is evaluated on the bytes by the Lean reader)',
-              'closedness of remove_empty_volumes / remove_unused_volumes (structural loop invariant)']
+              'ids unique / declared counts / one composition per volume / finite numbers: properties of the writers, '
+              'evaluated on the bytes of every file, not theorems']
 ASSUMPTIONS = []
 
 
